@@ -159,6 +159,7 @@ def wants (focus : String) (comp : String) : Bool :=
   | "C10" => comp == "res" || comp == "coef" || comp == "jac" || comp == "twins" || comp == "params"
   | "C18" => comp == "eps" || comp == "yw" || comp == "params" || comp == "res" || comp == "coef"
   | "C11" => comp == "res" || comp == "coef" || comp == "jac" || comp == "params" || comp == "ptwins"
+  | "C09" => comp == "res" || comp == "coef" || comp == "params" || comp == "jac"
   | "C04state" => comp == "res" || comp == "coef" || comp == "params" || comp == "twins"
   | "C06" => comp == "res" || comp == "coef" || comp == "jac" || comp == "yw" || comp == "wtwins"
   | "C07" => comp == "res" || comp == "coef" || comp == "jac" || comp == "stwins"
@@ -216,7 +217,12 @@ def stateCore (focus : String) (c : Case) : Acc × String := Id.run do
     | none => []
   let eps : Float := ((PB.run Float.abs pcalls).eps).getD (machEps width)
   let w : Option (Vector Float n) := wIn.map (vecOfArray n)
-  let oracle : TOracle := { tables := steps.map (·.tables) }
+  let hugeN := 1000000000
+  let parseIdx (v : String) : Nat := match v.toNat? with | some k => min k hugeN | none => hugeN
+  let faultMode := (attr c.header "failfrom").isSome
+  let oracle : TOracle := { tables := steps.map (·.tables),
+                            failFrom := parseIdx (attrStr c.header "failfrom" "x"),
+                            failTo := parseIdx (attrStr c.header "failto" "x") }
   let U := tableModel n m p oracle
   let Y : Mat n s Float := Yf.toMat n s
   let st0 : TState := { params := steps[0]!.alpha }
@@ -230,6 +236,25 @@ def stateCore (focus : String) (c : Case) : Acc × String := Id.run do
   let mut rankTag := "full"
   for si in [0:steps.size] do
     let step := steps[si]!
+    if step.kind == "final" && faultMode then
+      -- the state handed back by a fit under fault injection: whatever is present must be the value
+      -- a fresh, fault-free problem has at the reported parameters (never a stale one)
+      let o := step.get "impl"; let fr := step.get "fresh"
+      if let some ip := o.params then
+        acc := acc.addMon (cmpBits s!"final:params=alpha" step.alpha ip)
+      match o.res, fr.res with
+      | some (some x), some (some y) => acc := acc.addMon (cmpBits "final:res-vs-fresh" x y)
+      | some (some _), some none => acc := { acc with mon := acc.mon.push "final:residuals-present-but-fresh-problem-has-none" }
+      | _, _ => pure ()
+      match o.coef, fr.coef with
+      | some (some x), some (some y) => acc := acc.addMon (cmpBits "final:coef-vs-fresh" x.a y.a)
+      | some (some _), some none => acc := { acc with mon := acc.mon.push "final:coefficients-present-but-fresh-problem-has-none" }
+      | _, _ => pure ()
+      match o.res, o.coef with
+      | some a, some b => if a.isSome != b.isSome then
+          acc := { acc with mon := acc.mon.push "final:residuals-and-coefficients-presence-differ" }
+      | _, _ => pure ()
+      continue
     if si > 0 then
       P := P.setParams floatExt floatOps (vecOfArray p step.alpha)
     let o := step.get "impl"
@@ -250,11 +275,19 @@ def stateCore (focus : String) (c : Case) : Acc × String := Id.run do
     if wants focus "params" then
       if let some ip := o.params then
         acc := acc.addCorr (cmpBits s!"step{si}:params" P.params.toArray ip)
-        acc := acc.addMon (cmpBits s!"step{si}:params=alpha" step.alpha ip)
+        if !faultMode then
+          acc := acc.addMon (cmpBits s!"step{si}:params=alpha" step.alpha ip)
     -- --- presence
     acc := acc.addCorr (optPresence s!"step{si}:res-presence" P.residuals o.res)
     acc := acc.addCorr (optPresence s!"step{si}:coef-presence" P.coefficients o.coef)
-    match P.cached with
+    -- the implementation's Jacobian query made model calls: the model makes the same ones
+    let Pbefore := P
+    let (Pj, JmStep) := P.jacobianSeq
+    if o.jac.isSome then
+      P := Pj
+      if faultMode || wants focus "jac" then
+        acc := acc.addCorr (optPresence s!"step{si}:jac-presence" JmStep o.jac)
+    match Pbefore.cached with
     | none => pure ()
     | some cache =>
       let cond := condOf cache eps
@@ -315,8 +348,7 @@ def stateCore (focus : String) (c : Case) : Acc × String := Id.run do
               acc := { acc with compared := acc.compared + 1 }
         -- --- Jacobian (C03): only where the property speaks (full column rank)
         if wants focus "jac" then
-          let (_, Jm) := P.jacobianSeq
-          acc := acc.addCorr (optPresence s!"step{si}:jac-presence" Jm o.jac)
+          let Jm := JmStep
           if cond.full then
             if let (some J, some (some Ji)) := (Jm, o.jac) then
               let Jf := FMat.ofMat J
